@@ -72,6 +72,17 @@ def dump_sys(s):
     return tuple(dump_mol(m) for m in s._molecules)
 
 
+def same_dump(a, b, rel=1e-9):
+    """structural equality; floats (weights, mixture masses -- one of which is re-derived by a division after re-parsing) up to a relative 1e-9"""
+    if isinstance(a, float) or isinstance(b, float):
+        if a is None or b is None or isinstance(a, str) or isinstance(b, str):
+            return a == b
+        return a == b or abs(float(a) - float(b)) <= rel * max(abs(float(a)), abs(float(b)))
+    if isinstance(a, (tuple, list)) and isinstance(b, (tuple, list)):
+        return len(a) == len(b) and all(same_dump(x, y, rel) for x, y in zip(a, b))
+    return a == b
+
+
 def classify_exc(e, stage):
     """trigger tags for the defects recorded in known_findings.json"""
     import traceback
@@ -107,7 +118,7 @@ def roundtrip(rep, ctor, dump, text, ident, single_molecule, seed):
         s2 = str(o1)
         if s2 != s1:
             rep.fail("oracle", f"canonical string is not a fixed point: {s1!r} prints to {s2!r}", {**ident, "canonical": s1}, expected=s1, observed=s2)
-        if dump(o) != dump(o1):
+        if not same_dump(dump(o), dump(o1)):
             rep.fail("oracle", f"re-parsed canonical string {s1!r} denotes a different object", {**ident, "canonical": s1}, expected=str(dump(o))[:300], observed=str(dump(o1))[:300])
         if hasattr(o, "generable") and o.generable and hasattr(o, "generate") and seed is not None:
             try:
@@ -188,6 +199,13 @@ def check(rep):
         text, smw, kinds, pct, S = sysrun.make_system(rnd, allow_open=False)
         if smw is None:
             run("system", gbigsmiles.System, dump_sys, text, False)
+    # mixture numbers with many decimals (written and derived): the printed value must denote the same number
+    for text in ["CCO.|33.333%|CCN.|33.333%|CCC", "CCO.|1234.5678|", "CCO.|250.125|CCC.|749.875|", "CCCCC.|12.345%|[H]{[>][<]CC([>])c1ccccc1[<]}|gauss(500, 50)|[H].|50000|",
+                 "CCO.|0.004|CCC.|1000|", "CCO.|33.3%|CCN.|33.3%|CCC", "CCO.|0.1%|CCC.|3e-3|", "CCO.|66.66666666666667%|CCC"]:
+        run("system", gbigsmiles.System, dump_sys, text, False, source="decimals")
+    for _ in range(40 if quick else 2000):
+        a, b = round(rnd.uniform(1, 60), rnd.choice([3, 5, 9])), round(rnd.uniform(1, 39), rnd.choice([3, 4, 7]))
+        run("system", gbigsmiles.System, dump_sys, f"CCO.|{a}%|CCN.|{b}%|CCC" if rnd.random() < 0.5 else f"CCO.|{a * 10}|CCN.|{b}%|", False, source="decimals")
     rep.coverage.update({"evaluations": evaluations, "accepted_strings": accepted, "accepted_by_layer": by_layer, "distinct_nontrivial": len(distinct),
                          "documented_corpus": len(corpus),
                          "rule": "the 119 strings quoted in README / SI.md / tests, then descriptors, token ASTs, molecules of every archetype (structured generator + AST "
